@@ -144,6 +144,11 @@ def check(ctx):
     ctx.notes["normaliser_frames"] = {k: (v.describe() if isinstance(v, ADT) else repr(v)) for k, v in outs.items()}
     ok = outs["None"] is None
     ctx.ob("C18.Z2", f"{nf.short}/None", ok, loc(nf), "None -> None" if ok else f"None -> {outs['None']!r}")
+    decos = nf.decorator_names()
+    ctx.ob("C18.Z2", f"{nf.short}/not-memoised", not decos, loc(nf),
+           "the normaliser is a plain function" if not decos else
+           f"the normaliser is wrapped by @{decos[0]}: a cache keyed on datetime equality conflates fold=0 and fold=1 (naive "
+           f"equality and hash ignore fold), so the two passes of a repeated hour share one result")
     frames = {}
     for k in ("naive-local", "aware-Z", "aware-UTC", "aware-LOCAL"):
         o = outs[k]
@@ -180,6 +185,18 @@ def check(ctx):
         later = all(f.node.lineno > line for f in rr.stale_closures)
         uses_before = [n for n in st.own_nodes() if isinstance(n, ast.Name) and n.id == ft and isinstance(n.ctx, ast.Load) and n.lineno < line]
         ctx.ob("C18.Z1", f"{st.short}/{ft}-normalised-first", later and not uses_before, loc(st), "normalised before any use")
+    # fresh_time reaches the stale check unmodified from run
+    for caller, callee in ((rr.run, rr.apply), (rr.apply, st)):
+        for c in R.calls_to(m, caller, callee):
+            a = arg(c, None, ft)
+            okf = a is not None and isinstance(a, ast.Name) and a.id == ft
+            ctx.ob("C18.Z1", f"{caller.short} -> {callee.short}/{ft}", okf, loc(caller, c), f"{ft} forwarded" if okf else
+                   f"{ft} is not forwarded unchanged", norm(c)[:80])
+        rb = [b for b in caller.bindings.get(ft, []) if b[0] != "param"]
+        ctx.ob("C18.Z1", f"{caller.short}/{ft}-untouched", not rb, loc(caller),
+               f"{ft} is not rebound before it reaches the normaliser" if not rb else
+               f"{ft} is converted before it reaches the normaliser (`{norm(rb[0][1])[:60]}`): a second conversion (e.g. to naive local "
+               f"time, which drops fold) changes the instant it denotes")
     n_mt = 0
     for f in [st] + list(rr.stale_closures):
         for node in f.own_nodes():
